@@ -32,7 +32,7 @@ def run(rep, tier):
     cpath = os.path.join(wd, "table.ndjson")
     vlib.write_ndjson(cpath, cases)
     tpath = os.path.join(wd, "trace.ndjson")
-    vlib.run_harness(["record", "c19", "--aliases", apath, "--random", "200" if tier == "thorough" else "30"], stdin_path=cpath, stdout_path=tpath)
+    vlib.run_harness(["record", "c19", "--aliases", apath, "--random", "3000" if tier == "thorough" else "30"], stdin_path=cpath, stdout_path=tpath)
     # the enums of the API crates (error codes through ErrorCode and through a received error body) are probed by vh-api
     _, apiout, _ = vlib.run_harness(["c19api"], pkg="vh-api", stdin_path=cpath)
     with open(tpath, "a") as f:
